@@ -202,8 +202,12 @@ func c20Commands(s c20Snap, col *collector, key string) *drv.Violation {
 	}
 	// --output naming the source itself (literally, and through an equivalent spelling of the path): whatever the
 	// command answers, the source must stay byte-identical and nothing else in the directory may change
-	for _, c := range [][]string{{"surgery", "revert-meta-page"}, {"surgery", "freelist", "abandon"}, {"surgery", "freelist", "rebuild"}} {
-		for _, outp := range []string{src, filepath.Join(dir, ".") + string(filepath.Separator) + "." + string(filepath.Separator) + "src.db"} {
+	// (one command and one spelling per snapshot, chosen by its content: each CLI run costs a process start)
+	pick := int(sha256.Sum256(s.data)[0])
+	cmds3 := [][]string{{"surgery", "revert-meta-page"}, {"surgery", "freelist", "abandon"}, {"surgery", "freelist", "rebuild"}}
+	spellings := []string{src, filepath.Join(dir, ".") + string(filepath.Separator) + "." + string(filepath.Separator) + "src.db"}
+	for _, c := range cmds3[pick%3 : pick%3+1] {
+		for _, outp := range spellings[(pick/3)%2 : (pick/3)%2+1] {
 			before := dirState(dir)
 			args := append(append([]string{}, c...), src, "--output", outp)
 			code, o := runCLI(args...)
